@@ -97,6 +97,9 @@ pub struct Cfg5 {
     /// server: the handshake service rewrites CONNACK fields
     #[serde(default)]
     pub hs_with: Option<Override5>,
+    /// server: the per-connection publish service is created only when gate (G_FACT, 0) opens (a slow service factory)
+    #[serde(default)]
+    pub hold_factory: bool,
     pub connect: s5::Connect5,
     /// client role: CONNACK the scripted server answers with
     pub connack: s5::ConnAck5,
@@ -122,6 +125,7 @@ impl Default for Cfg5 {
             no_retain: false,
             no_sub_ids: false,
             hs_with: None,
+            hold_factory: false,
             connect: s5::Connect5 { client_id: "cid".into(), clean_start: true, ..Default::default() },
             connack: s5::ConnAck5::default(),
         }
@@ -482,7 +486,17 @@ pub async fn server_pipeline(
         let svc = ServiceFactory::<IoBoxed, SharedCfg>::create(&srv, shared).await.expect("server factory");
         Pipeline::new(ntex::service::boxed::service(svc))
     } else {
-        let srv = builder.publish(fn_service(move |p: v5::Publish| publish_handler(app_pub.clone(), p, 0)));
+        if cfg.hold_factory {
+            app_pub.hold(G_FACT, 0);
+        }
+        let srv = builder.publish(ntex::service::fn_factory_with_config(move |_: v5::Session<()>| {
+            let app = app_pub.clone();
+            async move {
+                // a service factory that takes its time (only when held)
+                app.wait(G_FACT, 0).await;
+                Ok::<_, AppErr>(fn_service(move |p: v5::Publish| publish_handler(app.clone(), p, 0)))
+            }
+        }));
         let svc = ServiceFactory::<IoBoxed, SharedCfg>::create(&srv, shared).await.expect("server factory");
         Pipeline::new(ntex::service::boxed::service(svc))
     }
